@@ -2,6 +2,7 @@ package tree
 
 import (
 	"fmt"
+	"sort"
 	"strconv"
 	"strings"
 )
@@ -23,14 +24,22 @@ func IsIndex(s string, maxIdx int64) (int, bool) {
 
 // ParseAddr mirrors the documented addressing: name split by sep (if any), numeric segments are indices, idx>=0 appended.
 func ParseAddr(name string, idx int, sep string) []Seg {
+	return ParseAddrOpts(name, idx, sep, 1024, false)
+}
+
+// ParseAddrOpts is ParseAddr with MaxIdx and EnableNumKeys (which only applies to single-segment names).
+func ParseAddrOpts(name string, idx int, sep string, maxIdx int64, numKeys bool) []Seg {
 	var segs []Seg
 	if name != "" {
 		parts := []string{name}
 		if sep != "" {
 			parts = strings.Split(name, sep)
 		}
+		if len(parts) > 1 {
+			numKeys = false
+		}
 		for _, p := range parts {
-			if i, ok := IsIndex(p, 1024); ok {
+			if i, ok := IsIndex(p, maxIdx); ok && !numKeys {
 				segs = append(segs, Seg{Idx: i, IsIx: true})
 			} else {
 				segs = append(segs, Seg{Name: p})
@@ -173,4 +182,87 @@ func (s Seg) String() string {
 		return fmt.Sprint(s.Idx)
 	}
 	return s.Name
+}
+
+// New returns the model of an empty config (neither dict nor list yet).
+func New() *Node { return &Node{K: Cont} }
+
+// IsDict / IsArray: a node is a dict once it has had a key, a list once it has had an element.
+func (n *Node) IsDict() bool  { return n.K == Cont && n.D != nil }
+func (n *Node) IsArray() bool { return n.K == Cont && (n.HasA || n.A != nil) }
+
+// Count mirrors CountField for a direct field name ("" = the node itself).
+func (n *Node) Count(name string) (int, bool) {
+	if name == "" {
+		return len(n.A) + len(n.D), true
+	}
+	c, ok := n.D[name]
+	if !ok {
+		return 0, false
+	}
+	switch c.K {
+	case Nil:
+		return 0, true
+	case Leaf:
+		return 1, true
+	}
+	if c.IsArray() {
+		return len(c.A), true
+	}
+	return 1, true
+}
+
+// Mixed reports whether some node below n has (or had) both a dict and a list part.
+func (n *Node) Mixed() bool {
+	if n == nil || n.K != Cont {
+		return false
+	}
+	if n.D != nil && (n.HasA || n.A != nil) {
+		return true
+	}
+	for _, v := range n.D {
+		if v.Mixed() {
+			return true
+		}
+	}
+	for _, e := range n.A {
+		if e.Mixed() {
+			return true
+		}
+	}
+	return false
+}
+
+// LeafPaths returns the root-relative dotted paths of all non-nil primitive leaves below n,
+// whose own root-relative path is prefix.
+func (n *Node) LeafPaths(prefix string) []string {
+	var out []string
+	var walk func(n *Node, p string)
+	join := func(p, s string) string {
+		if p == "" {
+			return s
+		}
+		return p + "." + s
+	}
+	walk = func(n *Node, p string) {
+		switch n.K {
+		case Leaf:
+			out = append(out, p)
+		case Cont:
+			keys := make([]string, 0, len(n.D))
+			for k := range n.D {
+				keys = append(keys, k)
+			}
+			sort.Strings(keys)
+			for _, k := range keys {
+				walk(n.D[k], join(p, k))
+			}
+			for i, e := range n.A {
+				walk(e, join(p, strconv.Itoa(i)))
+			}
+		}
+	}
+	walk(n, prefix)
+	sort.Strings(out)
+	return out
 }
